@@ -267,6 +267,11 @@ fn run_seq_ilv(
     let t0 = Instant::now();
     let (sst, mut col) = explore_all(&cfgs, &params);
     let macro_cov = macro_part(prop, tier, &params.probes, &mut col);
+    let nvm_cov = (prop == "C05").then(|| {
+        let (e, h) = crate::c17::c05_nvm_part(tier == "thorough", &mut col);
+        json!({"rule": "persistent wrapper (NvmAlloc): create, every history up to depth 1-3 over a fixed alphabet, drop, recover from the region alone: per-frame status, counts and freeability of every held block equal the model; zone sizes: 3 small ones and every size up to 140000 (600000 thorough) frames at which the number of metadata pages changes, +-1",
+            "evaluations": e, "histories": h})
+    });
     let t1 = t0.elapsed().as_secs_f64();
     let (ist, icol) = crate::ilv::explore_all(&scs, &opts);
     col.merge(icol);
@@ -296,6 +301,9 @@ fn run_seq_ilv(
     m.insert("concurrent_part".into(), Value::Object(ilvc));
     if let Some(mc) = macro_cov {
         m.insert("macro_part".into(), mc);
+    }
+    if let Some(nc) = nvm_cov {
+        m.insert("persistent_wrapper_part".into(), nc);
     }
     assumptions.push(SC_ASSUMPTION.to_string());
     assumptions.push(HOOK_ASSUMPTION.to_string());
